@@ -416,6 +416,13 @@ def r3_kabsch(ctx, s):
         base = U if which == "U" else VH
         want_idx = (":", "-1") if which == "U" else ("-1", ":")
         okf = (ast.unparse(r_), ast.unparse(c_)) == want_idx and same_expr(val, f"{base}[{ast.unparse(m_)}, {want_idx[0]}, {want_idx[1]}] * -1")
+        if not okt and ast.unparse(m_) == ":":
+            # the same correction for all models at once: the last column (row) times -1 where improper and times 1 elsewhere
+            for one_ in ("1", "1.0"):
+                for neg_ in ("-1", "-1.0"):
+                    factor_ = f"np.where({test}, {neg_}, {one_})[:, np.newaxis]"
+                    if (ast.unparse(r_), ast.unparse(c_)) == want_idx and same_expr(val, f"{base}[:, {want_idx[0]}, {want_idx[1]}] * {factor_}"):
+                        okt = okf = True
     ctx.ob("R3.reflection-test", SUP, f.name, "det(U) * det(Vh) < 0", okt and len(sets) == 1,
            "an improper solution is recognised by the sign of det(U) det(Vh)", f.lineno)
     ctx.ob("R3.reflection-fix", SUP, f.name, con, okf and len(sets) == 1,
